@@ -585,6 +585,8 @@ func runC03(c *Ctx) {
 	// R6 (shared with C04.R10): after a write that failed inside a frame nothing more is written — the next request
 	// would follow the torn frame on the wire and the peer would read its bytes as the rest of that frame
 	checkWriteFailureLatched(c, "R6")
+	// R7 (shared with C02.R11): the in-flight table is keyed by the request packet's id()
+	checkIDMethods(c, "R7")
 }
 
 // sameValue: two SSA values denote the same runtime value in one function activation
@@ -1003,6 +1005,10 @@ func runC04(c *Ctx) {
 	checkEOFIsTheServersWord(c, "R9")
 	checkWriteFailureLatched(c, "R10")
 	checkRoundTripErrorKept(c, "R11")
+	checkFramingReportsWriteErrors(c, "R12")
+	// R13 (shared with C13.R4 / C01.R18): the error of a chunk in the sequential loops is what the call returns — a
+	// connection lost during the last chunk must not be overwritten by the source's io.EOF and reported as success
+	checkSequentialLoops(c, "R13")
 
 	// ---------- R8 no client lock is leaked: a later call would hang ----------
 	checkLockBalance(c, "R8", func(fn *ssa.Function) bool { return !isServerSide(fn) && outermost(fn).Package() == p.Sftp }, 15)
@@ -1773,4 +1779,52 @@ func (p *Program) underExclusiveFileLock(in ssa.Instruction) bool {
 		}
 	}
 	return any
+}
+
+// checkFramingReportsWriteErrors (C04.R12): the framing function (sendPacket of packet.go) is where a lost connection
+// first shows, as the error of a Write.  From the failing side of every test of a Write's error, every return that can
+// be reached hands back an error that is not nil: a failure of the payload's Write swallowed by a shadowed variable
+// makes dispatchRequest believe the request went out, and its caller waits for a reply that never comes.
+func checkFramingReportsWriteErrors(c *Ctx, rule string) {
+	p := c.P
+	fn := p.Func("sendPacket")
+	if fn == nil {
+		c.missing(rule, "sendPacket")
+		return
+	}
+	n := 0
+	for _, in := range callsWhere(fn, func(cc *ssa.CallCommon) bool { return cc.IsInvoke() && cc.Method.Name() == "Write" }) {
+		call, ok := in.(*ssa.Call)
+		if !ok {
+			continue
+		}
+		var errEx *ssa.Extract
+		for _, r := range *call.Referrers() {
+			if ex, ok := r.(*ssa.Extract); ok && ex.Index == 1 {
+				errEx = ex
+			}
+		}
+		n++
+		if errEx == nil {
+			c.bad(rule, fmt.Sprintf("sendPacket reports the failure of Write #%d", n), p.Pos(call.Pos()), "the error of a Write is discarded")
+			continue
+		}
+		tests := nilTests(errEx)
+		lost := len(tests) == 0
+		for _, nt := range tests {
+			if reachFromNilSide(nt, true, func(x ssa.Instruction) bool {
+				r, ok := x.(*ssa.Return)
+				if !ok || len(r.Results) == 0 {
+					return false
+				}
+				cls, _ := classify(r.Results[len(r.Results)-1], reachEnv, 0)
+				return cls != clsNonNil
+			}, nil) {
+				lost = true
+			}
+		}
+		c.check(!lost, rule, fmt.Sprintf("sendPacket reports the failure of Write #%d", n), p.Pos(call.Pos()), "every return behind a failed Write carries an error",
+			"after a Write failed sendPacket can return a nil error: the request is taken for sent, its caller waits for a reply on a connection that is gone")
+	}
+	c.check(n >= 2, rule, "Write calls of sendPacket", p.Pos(fn.Pos()), fmt.Sprintf("%d Write calls", n), fmt.Sprintf("only %d Write calls found in sendPacket (header and payload expected)", n))
 }
